@@ -644,3 +644,31 @@ addendum('C14', 'R12 = the producer asks every mutator of the pass '
 addendum('C09', 'R7 also covers subprocess.run / check_output.')
 addendum('C03', 'R10 also reports a conversion (float/int) used as the '
          'judge of a numeric lexeme.')
+
+
+# ---- round 10 (DESIGN.md 8.4, "Round 10")
+STATELESS = ('the protocol methods of the mutator classes store nothing on '
+             'the object, the class or module-level containers except '
+             'option values and constants (sa/mutstate.py)')
+addendum('C02', 'R14: ' + STATELESS + '; R2: the Producer\'s mutator list '
+         'is the list get_pass() delivered.')
+addendum('C03', 'R12: ' + STATELESS + '; R13: a mutator class outside the '
+         'reviewed list (sa/known_mutators.json) ends the check with exit '
+         '2.')
+addendum('C15', 'R12: ' + STATELESS + '; R13: record types have no mutable '
+         'default value.')
+addendum('C16', 'R13: ' + STATELESS + '; R12: operator names select their '
+         'rule by equality, not by an unanchored regular expression.')
+addendum('C18', 'R6: ' + STATELESS + '; R1 counts set algebra on dict '
+         'views as sets.')
+addendum('C06', 'R8: the input-file and output-file options are not '
+         'reassigned after parsing (no symlink resolution, nothing derived '
+         'from the other path).')
+addendum('C01', 'R12 = C06.R8.')
+addendum('C09', 'R11 = C06.R8.')
+addendum('C08', 'R11: every container the reader fills is created inside '
+         'the call.')
+addendum('C10', 'R10 = no return / break / continue inside a finally block '
+         '(C05.R9).')
+addendum('C12', 'R1 includes a shape-independent part: whatever measures a '
+         'text that is written encoded measures bytes.')
